@@ -127,3 +127,160 @@ func WrapRedump(c *Chunk, pick func() bool) int {
 	Resolve(c)
 	return n
 }
+
+// Validate checks the static rules the generator must respect (a violation is
+// a generator bug, not a property of golua): `...` only inside vararg
+// functions, break only inside loops, no assignment to <const>/<close>
+// variables, goto only to a label visible in an enclosing block of the same
+// function. It returns "" for a valid chunk.
+func Validate(c *Chunk) string {
+	Resolve(c)
+	v := &validator{}
+	v.fn(c.Fn)
+	return v.err
+}
+
+type validator struct{ err string }
+
+func (v *validator) fail(s string) {
+	if v.err == "" {
+		v.err = s
+	}
+}
+
+type vctx struct {
+	vararg bool
+	loops  int
+	labels []map[string]bool
+}
+
+func (v *validator) fn(f *Func) {
+	ctx := &vctx{vararg: f.IsVararg}
+	v.block(f.Body, ctx)
+}
+
+func (v *validator) block(b *Block, ctx *vctx) {
+	if b == nil {
+		return
+	}
+	ls := map[string]bool{}
+	for _, s := range b.Stmts {
+		if l, ok := s.(*Label); ok {
+			ls[l.Name] = true
+		}
+	}
+	ctx.labels = append(ctx.labels, ls)
+	for _, s := range b.Stmts {
+		v.stmt(s, ctx)
+	}
+	ctx.labels = ctx.labels[:len(ctx.labels)-1]
+}
+
+func (v *validator) exprs(es []Expr, ctx *vctx) {
+	for _, e := range es {
+		v.expr(e, ctx)
+	}
+}
+
+func (v *validator) stmt(s Stmt, ctx *vctx) {
+	switch n := s.(type) {
+	case *Local:
+		v.exprs(n.Exprs, ctx)
+	case *Assign:
+		v.exprs(n.Exprs, ctx)
+		for _, t := range n.Targets {
+			if nm, ok := t.(*Name); ok && nm.Decl != nil && nm.Decl.Attrib != "" {
+				v.fail("assignment to " + nm.Decl.Attrib + " variable " + nm.Name)
+			}
+			v.expr(t, ctx)
+		}
+	case *CallStmt:
+		v.expr(n.Call, ctx)
+	case *Do:
+		v.block(n.Body, ctx)
+	case *While:
+		v.expr(n.Cond, ctx)
+		ctx.loops++
+		v.block(n.Body, ctx)
+		ctx.loops--
+	case *Repeat:
+		ctx.loops++
+		v.block(n.Body, ctx)
+		ctx.loops--
+		v.expr(n.Cond, ctx)
+	case *If:
+		for i := range n.Conds {
+			v.expr(n.Conds[i], ctx)
+			v.block(n.Blocks[i], ctx)
+		}
+		v.block(n.Else, ctx)
+	case *NumFor:
+		v.expr(n.Start, ctx)
+		v.expr(n.Limit, ctx)
+		if n.Step != nil {
+			v.expr(n.Step, ctx)
+		}
+		ctx.loops++
+		v.block(n.Body, ctx)
+		ctx.loops--
+	case *GenFor:
+		v.exprs(n.Exprs, ctx)
+		ctx.loops++
+		v.block(n.Body, ctx)
+		ctx.loops--
+	case *FuncStmt:
+		v.fn(n.Fn)
+	case *LocalFunc:
+		v.fn(n.Fn)
+	case *Return:
+		v.exprs(n.Exprs, ctx)
+	case *Break:
+		if ctx.loops == 0 {
+			v.fail("break outside a loop")
+		}
+	case *Goto:
+		found := false
+		for _, ls := range ctx.labels {
+			if ls[n.Label] {
+				found = true
+			}
+		}
+		if !found {
+			v.fail("goto " + n.Label + " without a visible label")
+		}
+	}
+}
+
+func (v *validator) expr(e Expr, ctx *vctx) {
+	switch n := e.(type) {
+	case *Vararg:
+		if !ctx.vararg {
+			v.fail("'...' outside a vararg function")
+		}
+	case *Index:
+		v.expr(n.Obj, ctx)
+		v.expr(n.Key, ctx)
+	case *Call:
+		v.expr(n.Fn, ctx)
+		v.exprs(n.Args, ctx)
+	case *MethCall:
+		v.expr(n.Obj, ctx)
+		v.exprs(n.Args, ctx)
+	case *Func:
+		v.fn(n)
+	case *Bin:
+		v.expr(n.L, ctx)
+		v.expr(n.R, ctx)
+	case *Un:
+		v.expr(n.X, ctx)
+	case *Paren:
+		v.expr(n.X, ctx)
+	case *Table:
+		for _, f := range n.Fields {
+			if f.Key != nil {
+				v.expr(f.Key, ctx)
+			}
+			v.expr(f.Val, ctx)
+		}
+	}
+}
